@@ -15,6 +15,13 @@ claimed = {
  "C16": "Theorem C16_total: for all byte strings and all type descriptors the decoder model returns value or error, never Panic (out-of-range access) or OutOfFuel (non-termination); error-class lemmas; decoder model tied to asn.UnmarshalWithParams on malformed/mutated/arbitrary inputs plus an exhaustive Go-side sweep of short inputs; known finding C16/wrong-type-accepted proved as C16_wrong_type_refuted",
  "C07": "Theorems C07_reserve/refund/terminate/echo/unknown/frame and C07_sequence (running balance over any CCR sequence = fold of a one-number specification) on the model of pkg/abmf handleCCR; model tied to the real server (abmf.OpenServer, real Diameter/TLS connections, fake MongoDB) by request-sequence correspondence; the statement of C07 is also evaluated on the implementation's own answers and balances; known finding C07/int64-overflow proved as C07_refund_overflow_refuted",
  "C08": "Theorems C08_answers (every stored unit-cost string), C08_agree, C08_debit, C08_reserve on the model of pkg/rf handleSUR/buildTaffif and the CHF's getUnitCost; tied to the real rating server over Diameter and to the real CHF (ChfUe.UnitCost after an update) on adversarial unit-cost strings; exact-pricing monitor on the implementation's own answers",
+ "C01": "Theorem C01_round: one credit-control round (reserve or debit mode, with the ABMF and RF models behind it) lowers balance + reservation by exactly unit cost x reported usage and touches no other account; charging model (Chf.v) tied to the real CHF end to end (router, processor, Diameter, RF/ABMF, fake MongoDB) on interactively generated histories compared field by field; the accounting identity is also evaluated over every observed history; known finding C01/usage-in-create-not-rated",
+ "C06": "Theorems C06_grant_limited (reserve mode: grant = what balance + unconsumed reservation buys, final-unit indication iff that is less than requested, balance >= 0, grant backed by the reservation) and C06_debit_no_overdraft on the model; tie and monitors as C01 with low-balance strata; known findings C06/no-final-unit-indication-in-debit-mode and C06/shared-reservation-across-sessions",
+ "C02": "Theorems C02_update_appends, C02_identity_kept and C02_timestamp (BCD time stamp decodes to the instant and offset for every zone offset) on the model; records of the model compared with ChfUe.Records after every operation (content, order, BER size); exactly-once / identity / cause monitor over every observed history incl. two-session and record-splitting histories; TimeStampToCdr compared on all 1681 minute offsets",
+ "C03": "Theorem C03_dump_wf: the file dumpCdrFile writes is a well-formed TS 32.297 file whenever every record encoding fits 16 bits (via the C14/C15 theorems); record sizes of the model (BER encoder model on the regenerated schema) compared with the real encodings; the independent reader + generic TLV walker are run in Coq on the bytes of /tmp/<supi>.cdr; known finding C03/record-exceeds-65535 proved as C03_oversize_refuted",
+ "C10": "Theorems C10_reference_determines_counter (any SUPI and consumer text) and C10_unique (NoDup of the references handed out in any history) on the model; references, session map and record counter compared with the CHF on adversarial-name histories; uniqueness/designation monitor on the observed state. Concurrent creates are C09's subject",
+ "C12": "Theorems C12_reject_no_effect (a 4xx answer leaves the whole world unchanged), C12_create, C12_recharge, C12_statuses on the model; statuses, Location, echo, balances, reservations, records, notifications compared with the CHF incl. unknown-subscriber / unknown, stale and foreign reference requests; contract and no-effect monitor on the observed trace",
+ "C11": "Theorems C11_no_5xx and C11_rejected_then_next on the model (modelled request language); exhaustive presence lattice over the optional members (all subsets up to size 2 + sample in quick, all 1024 subsets in thorough) x {create, update, release}, MCC/MNC lengths, SUPI shapes and recharging parameters against the real router, each followed by a well-formed request with a deadline (no 5xx, no hang)",
 }
 checks = []
 for pid, text in claimed.items():
